@@ -39,21 +39,21 @@ HARNESSES = [
     H("k_end_of_input", "K-inf-leaf", ["C04", "C13"], fns=["end_of_input"]),
     H("k_validate_zlib_header", "K-inf-leaf", ["C03", "C04", "C09"], fns=["validate_zlib_header"]),
     H("k_prologue_bad_geometry", "K-prologue", ["C05", "C08"], fns=["decompress_with_limit (prologue)"], cost=30,
-      strength="F in all scalars and tables; B(out<=16,in<=4 bytes)"),
+      strength="B(out<=16,in<=4 bytes; complete in every register, table entry, flag and position)"),
     H("k_prologue_failure_absorbing_a", "K-prologue", ["C04", "C05", "C08", "C09", "C13"], fns=["decompress_with_limit (prologue, failure exit, epilogue)"], cost=50,
-      strength="F in all scalars and tables; B(out<=16,in<=4 bytes)"),
+      strength="B(out<=16,in<=4 bytes; complete in every register, table entry, flag and position)"),
     H("k_prologue_failure_absorbing_b", "K-prologue", ["C04", "C05", "C08", "C09", "C13"], fns=["decompress_with_limit (prologue, failure exit, epilogue)"], cost=50,
-      strength="F in all scalars and tables; B(out<=16,in<=4 bytes)"),
+      strength="B(out<=16,in<=4 bytes; complete in every register, table entry, flag and position)"),
     H("k_prologue_done_forever", "K-prologue", ["C06", "C08", "C09", "C13", "C16"], fns=["decompress_with_limit (DoneForever exit, epilogue checksum verdict)"], cost=30,
-      strength="F in all scalars and tables; B(out<=16,in<=4 bytes)"),
+      strength="B(out<=16,in<=4 bytes; complete in every register, table entry, flag and position)"),
     # ---- K-inflate (streaming wrapper against the M-decompress contract model) ----
     H("k_inflate_protocol", "K-inflate", ["C04", "C05", "C06", "C07", "C09", "C13"], fns=["inflate", "inflate_loop", "push_dict_out", "InflateState::new"],
-      cost=60, strength="F in wrapper state, flags, flush, engine results; B(in<=3,out<=3 bytes => loop<=8 iterations, unwinding assertion on)",
+      cost=60, strength="B(in<=3,out<=3 bytes => loop<=8 iterations, unwinding assertion on; complete in wrapper state, flags, flush, engine results)",
       note="decompress replaced by contract model M-decompress (clauses: counts<=offered, starved statuses truthful, HasMoreOutput only when window full, no BadParam on valid geometry)"),
-    H("k_push_dict_out", "K-inflate", ["C05", "C07", "C08", "C13"], fns=["push_dict_out"], cost=20, strength="F in ring state; B(out<=4 bytes)"),
+    H("k_push_dict_out", "K-inflate", ["C05", "C07", "C08", "C13"], fns=["push_dict_out"], cost=20, strength="B(out<=4 bytes; complete in ring state)"),
     # ---- K-deflate (streaming wrapper against the M-compress contract model) ----
     H("k_deflate_protocol", "K-deflate", ["C02", "C12", "C14"], fns=["deflate", "TDEFLFlush::from(MZFlush)"], cost=40,
-      strength="F in wrapper state, flush, engine results; B(in<=3,out<=3 bytes; loop unwinding assertion on)",
+      strength="B(in<=3,out<=3 bytes, loop unwinding assertion on; complete in wrapper state, flush, engine results)",
       note="compress replaced by contract model M-compress (proved by K-dispatch: counts<=offered, Done only after Finish, status latched; assumed: progress - Okay with output space and work left moved at least one byte)"),
     # ---- K-lenDist ----
     H("k_lz_one_match_roundtrip", "K-lenDist", ["C01", "C02", "C10"], cost=40,
@@ -76,7 +76,9 @@ HARNESSES = [
     H("k_put_bits_model_equiv", "K-flushmark", ["C02", "C10", "C12"], fns=["OutputBufferOxide::put_bits"], cost=20),
     # ---- K-dispatch ----
     H("k_dispatch", "K-dispatch", ["C01", "C02", "C09", "C10", "C11", "C12", "C14", "C16"],
-      fns=["compress", "compress_inner", "flush_output_buffer", "CallbackOxide::new_callback_buf"], cost=60, timeout=900),
+      fns=["compress", "compress_inner", "CallbackOxide::new_callback_buf"], cost=60, timeout=900,
+      strength="B(in<=4,out<=8 bytes; complete in configuration, history, flush, engine results)",
+      note="compress_stored/compress_fast/compress_normal/flush_block/flush_output_buffer/update_adler32 replaced by recording contract models; <[u16]>::fill by its std contract model"),
 
 ]
 
